@@ -59,7 +59,8 @@ INFO = {
         "functions": ["Cpu::exec (whole decoder)", "handlers the decoder routes the unimplemented encodings to (mov_l.rs, cmp_l.rs, stc.rs, mov_b.rs) kept real"],
         "bounds": "every encoding of NOP, SLEEP, LDC (#imm, Rs, six .W memory forms), ANDC/ORC/XORC, SUBX, DAA, DAS, EXTS, MULXS/DIVXS, EEPMOV, MOVFPE/MOVTPE with all "
                   "remaining opcode bits, all following words, all registers and all memory contents symbolic: execution must end in Err; implemented encodings are decided "
-                  "form by form in C01-C06/C08 (aspects route, pc, outcome)",
+                  "form by form in C01-C06/C08 (aspects route, pc, outcome); 25 representatives covering every multi-word encoding family (Bcc d:8/d:16, JMP, BSR, JSR, RTS, TRAPA, MOV "
+                  "#imm / @aa:16 / @aa:24 / @(d:16) / @(d:24), ALU #imm word and long, 01F0-prefixed logic, bit operations on memory, STC.W) are re-decided under C07 itself",
         "outside": "bit patterns that are not H8/300H instructions at all (the property does not constrain them)",
         "assumptions": COMMON_INSTR + ["memory: every mapped read returns an arbitrary byte"],
     },
@@ -100,9 +101,11 @@ INFO = {
         "assumptions": COMMON_INSTR + ["Cpu::send_stdout_message replaced by a recording stub under Kani (natively a channel-backed socket captures the real message)", "ER1 and the buffer address below 2^24"],
     },
     "C15": {
-        "functions": ["Cpu::fetch", "Cpu::exec", "every instruction handler (one harness per source file under src/cpu/instruction)", "Cpu::interrupt", "addressing-mode helpers"],
+        "functions": ["Cpu::fetch", "Cpu::exec", "every instruction handler (one harness per source file under src/cpu/instruction)", "Cpu::interrupt", "addressing-mode helpers",
+                      "Timer8_0::update_tcr / update_timer8_0 via Bus::write(H'FFFF80) and ModuleManager::update_modules"],
         "bounds": "one instruction with ALL opcode bits, registers, CCR and memory bytes symbolic and no operand assumption; decided = no failed Kani check (panic, unwrap, arithmetic/shift overflow, "
-                  "index, division) in the emulator's source; PC placements: RAM, DRAM start/end, vector area; TRAPA write length <= 4",
+                  "index, division) in the emulator's source; PC placements: RAM, DRAM start/end, vector area; TRAPA write length <= 4; "
+                  "peripheral side: any two bytes written to 8TCR0 through the real Bus::write (unimplemented clock selects 4-7 included) each followed by a peripheral update of <= 16 states with arbitrary timer registers",
         "outside": "control-channel lines (C18); run()'s own arithmetic is covered by C13's harness; optimized-build verdict is derived (release removes only overflow aborts) and confirmed by native replay in both profiles",
         "assumptions": COMMON_INSTR[1:],
     },
